@@ -150,3 +150,16 @@ TEXT["C13"] = dict(
                "multiset-equal. Exploration: held on the histories generated.",
     level_note="trusts the linear-scan models; any element among equal priorities may surface; radix heap only "
                "driven inside its documented monotonicity precondition")
+TEXT["C17"] = dict(
+    engine="ledger+alloc",
+    design_ref="DESIGN.md section 4, C17",
+    technique="runtime lock-step differential monitor vs reference recency list / std::(multi)set after every op, in-order walker, arena-checking node allocator + element-lifetime ledger, under ASan+UBSan",
+    level_text="Random histories over small key universes drive both LRU caches (including puts of keys that are "
+               "already the most recent one, touches interleaved with erasures, absent keys for every throwing and "
+               "non-throwing form, clear-then-reuse) and SplayTree as set and multiset under three orders (including "
+               "a coarse order with equivalence classes) with operations on the empty tree, erase by node, "
+               "clear-then-reuse and destruction. Every return value, exception kind, popped key/value, size and "
+               "the complete in-order walk are compared with the reference after each operation; node blocks and "
+               "key objects are counted exactly. Exploration: held on the histories generated.",
+    level_note="trusts std::list / std::set / std::multiset as references; the recency order of an LRU cache is only "
+               "observable through pop(), so it is compared at every pop and by a final drain")
